@@ -10,14 +10,16 @@ import RV.Driver.Util
   operation order.  Also runs the LEAPFROG model of RV/Model/Reversal.lean.
 
   line protocol (doubles as 16 hex digits, ints as 16 hex digits two's complement):
-    janus <order> <scale_pos> <scale_vel> <G> <softening> <every> <nseg> (<dt> <n>)*nseg <N> (m x y z vx vy vz)*N
-    leapfrog <G> <softening> <every> <nseg> (<dt> <n>)*nseg <N> (m x y z vx vy vz)*N
+    FORCE = <G> <softening> <N_active|-1> <testparticle_type> <k of the additional force a += -k x>
+    janus <order> <scale_pos> <scale_vel> FORCE <every> <nseg> (<dt> <n>)*nseg <N> (m x y z vx vy vz)*N
+    leapfrog FORCE <every> <nseg> (<dt> <n>)*nseg <N> (m x y z vx vy vz)*N
+    sei <OMEGA> <OMEGAZ> FORCE <every> <nseg> (<dt> <n>)*nseg <N> (m x y z vx vy vz)*N
   answer: records separated by " | "; a JANUS record is 6N ints then 6N doubles
   (`p_int` and the particles after `to_double`), first record = state after `to_int`;
   then one record every <every> steps and at the end of each segment; "err" ends the
   answer when the model meets a conversion outside the int64 range.
 -/
-open RV RV.Driver RV.Janus
+open RV RV.Driver RV.Janus RV.Reversal
 
 /-- IEEE double / x86-64 instance.  `truncToInt` agrees with the C cast wherever the C
     cast is defined except at exactly -2^63 (also reported as out of range, to keep the
@@ -31,23 +33,45 @@ instance : JFloat Float where
   ofInt i := (Int64.ofBitVec i).toFloat
   truncToInt a := if a.abs < 9223372036854775808.0 then some a.toInt64.toBitVec else none
 
-/-- gravity.c REB_GRAVITY_BASIC, `_gravity_ignore_terms==0`, `N_active==-1`, no ghost boxes:
-    `for i in 1..N-1, for j in 0..i-1` pair loop, accumulation order as in C. -/
-def gravityBasic (G soft2 : Float) (ms : Array Float) (pos : List (V3 Float)) : List (V3 Float) := Id.run do
+/-- the force configuration of a line: `<G> <softening> <N_active (-1 = all)> <testparticle_type> <k>`;
+    `k ≠ 0` adds the velocity-independent additional force `a += (-k)*x` (installed on the real code
+    as an `additional_forces` callback) -/
+structure Force where
+  G : Float
+  soft2 : Float
+  nActive : Option Nat
+  tpType : Bool
+  k : Float
+
+def parseForce : List String → Option (Force × List String)
+  | g :: soft :: na :: tp :: k :: r =>
+    let soft := fl soft
+    let na? : Option (Option Nat) := if na == "-1" then some none else na.toNat?.map some
+    match na?, tp.toNat? with
+    | some na, some tp => some (⟨fl g, soft*soft, na, tp != 0, fl k⟩, r)
+    | _, _ => none
+  | _ => none
+
+/-- gravity.c:139-222 REB_GRAVITY_BASIC (no OPENMP, `_gravity_ignore_terms==0`, no ghost boxes):
+    active pairs `for i in 1..N_active-1, for j in 0..i-1`, then test particles
+    `for i in max(N_active,1)..N-1, for j in 0..N_active-1` (back-reaction on the active particle only
+    for `testparticle_type != 0`); accumulation order as in C.  Then the additional force. -/
+def gravityBasic (f : Force) (ms : Array Float) (pos : List (V3 Float)) : List (V3 Float) := Id.run do
   let p := pos.toArray
   let n := p.size
+  let na := match f.nActive with | some a => min a n | none => n
   let mut ax : Array Float := Array.replicate n 0.0
   let mut ay : Array Float := Array.replicate n 0.0
   let mut az : Array Float := Array.replicate n 0.0
-  for i in [1:n] do
+  for i in [1:na] do
     for j in [0:i] do
       let pi := p[i]!
       let pj := p[j]!
       let dx := (0.0 + pi.x) - pj.x
       let dy := (0.0 + pi.y) - pj.y
       let dz := (0.0 + pi.z) - pj.z
-      let r := Float.sqrt (dx*dx + dy*dy + dz*dz + soft2)
-      let prefact := G / (r*r*r)
+      let r := Float.sqrt (dx*dx + dy*dy + dz*dz + f.soft2)
+      let prefact := f.G / (r*r*r)
       let prefactj := (-prefact) * ms[j]!
       let prefacti := prefact * ms[i]!
       ax := ax.set! i (ax[i]! + prefactj*dx)
@@ -56,6 +80,30 @@ def gravityBasic (G soft2 : Float) (ms : Array Float) (pos : List (V3 Float)) : 
       ax := ax.set! j (ax[j]! + prefacti*dx)
       ay := ay.set! j (ay[j]! + prefacti*dy)
       az := az.set! j (az[j]! + prefacti*dz)
+  for i in [(max na 1):n] do
+    for j in [0:na] do
+      let pi := p[i]!
+      let pj := p[j]!
+      let dx := (0.0 + pi.x) - pj.x
+      let dy := (0.0 + pi.y) - pj.y
+      let dz := (0.0 + pi.z) - pj.z
+      let r := Float.sqrt (dx*dx + dy*dy + dz*dz + f.soft2)
+      let prefact := f.G / (r*r*r)
+      let prefactj := (-prefact) * ms[j]!
+      ax := ax.set! i (ax[i]! + prefactj*dx)
+      ay := ay.set! i (ay[i]! + prefactj*dy)
+      az := az.set! i (az[i]! + prefactj*dz)
+      if f.tpType then
+        let prefacti := prefact * ms[i]!
+        ax := ax.set! j (ax[j]! + prefacti*dx)
+        ay := ay.set! j (ay[j]! + prefacti*dy)
+        az := az.set! j (az[j]! + prefacti*dz)
+  if f.k != 0.0 then
+    for i in [0:n] do
+      let pi := p[i]!
+      ax := ax.set! i (ax[i]! + (-f.k)*pi.x)
+      ay := ay.set! i (ay[i]! + (-f.k)*pi.y)
+      az := az.set! i (az[i]! + (-f.k)*pi.z)
   return (List.range n).map (fun i => ⟨ax[i]!, ay[i]!, az[i]!⟩)
 
 def hxI (i : I64) : String := toHex16 (UInt64.ofNat i.toNat)
@@ -91,9 +139,11 @@ def runSeg (cfg : Cfg Float) (sch : Scheme Float) (dt : Float) (every : Nat) :
     Nat → Nat → List PInt → List String → (Option (List PInt)) × List String
   | 0, _, st, out => (some st, out)
   | n+1, k, st, out =>
-    match step cfg sch dt st with
+    -- the full step as seen from outside: flag clear, N_allocated = N, particles = doubles of the grid
+    match stepFull cfg sch dt (toDouble cfg.scalePos cfg.scaleVel st) ⟨st, st.length, false⟩ with
     | none => (none, "err" :: out)
-    | some st' =>
+    | some (js', _) =>
+      let st' := js'.pInt
       let k' := k + 1
       let emit := n == 0 || (every != 0 && k' % every == 0)
       runSeg cfg sch dt every n k' st' (if emit then recJ cfg.scalePos cfg.scaleVel st' :: out else out)
@@ -108,23 +158,26 @@ def runSegs (cfg : Cfg Float) (sch : Scheme Float) (every : Nat) :
 
 def janusLine (toks : List String) : String :=
   match toks with
-  | order :: sp :: sv :: g :: soft :: every :: nseg :: rest =>
-    match order.toNat?, every.toNat?, nseg.toNat? with
-    | some order, some every, some nseg =>
-      match schemeOfOrder order, parseSegs nseg rest with
-      | some sch, some (segs, _n :: ptoks) =>
-        let parts := parseParts ptoks
-        let ms := (parts.map Prod.fst).toArray
-        let soft := fl soft
-        let cfg : Cfg Float := ⟨fl sp, fl sv, gravityBasic (fl g) (soft*soft) ms⟩
-        match toInt cfg.scalePos cfg.scaleVel (parts.map Prod.snd) with
-        | none => "err"
-        | some st0 =>
-          let out := runSegs cfg sch every segs st0 [recJ cfg.scalePos cfg.scaleVel st0]
-          " | ".intercalate out.reverse
-      | none, _ => "bad-order"
-      | _, _ => "bad-op"
-    | _, _, _ => "bad-op"
+  | order :: sp :: sv :: rest0 =>
+    match parseForce rest0 with
+    | some (force, every :: nseg :: rest) =>
+      match order.toNat?, every.toNat?, nseg.toNat? with
+      | some order, some every, some nseg =>
+        match schemeOfOrder order, parseSegs nseg rest with
+        | some sch, some (segs, _n :: ptoks) =>
+          let parts := parseParts ptoks
+          let ms := (parts.map Prod.fst).toArray
+          let cfg : Cfg Float := ⟨fl sp, fl sv, gravityBasic force ms⟩
+          -- the head of the first part1: N_allocated (0) != N, so the grid state is derived from the doubles
+          match part1Sync cfg.scalePos cfg.scaleVel (parts.map Prod.snd) ⟨[], 0, false⟩ with
+          | none => "err"
+          | some js0 =>
+            let out := runSegs cfg sch every segs js0.pInt [recJ cfg.scalePos cfg.scaleVel js0.pInt]
+            " | ".intercalate out.reverse
+        | none, _ => "bad-order"
+        | _, _ => "bad-op"
+      | _, _, _ => "bad-op"
+    | _ => "bad-op"
   | _ => "bad-op"
 
 /-- `janus1 <order> <scale_pos> <scale_vel> <G> <softening> <dt> <N> (m x y z vx vy vz as int64 hex)*N`:
@@ -138,64 +191,84 @@ def parsePartsI : List String → List (Float × PInt)
 
 def janus1Line (toks : List String) : String :=
   match toks with
-  | order :: sp :: sv :: g :: soft :: dt :: _n :: ptoks =>
-    match order.toNat? with
-    | some order =>
-      match schemeOfOrder order with
-      | some sch =>
-        let parts := parsePartsI ptoks
-        let ms := (parts.map Prod.fst).toArray
-        let soft := fl soft
-        let cfg : Cfg Float := ⟨fl sp, fl sv, gravityBasic (fl g) (soft*soft) ms⟩
-        match step cfg sch (fl dt) (parts.map Prod.snd) with
-        | none => "err"
-        | some st => " ".intercalate ((st.flatMap (fun p => [p.x, p.y, p.z, p.vx, p.vy, p.vz])).map hxI)
-      | none => "bad-order"
-    | none => "bad-op"
+  | order :: sp :: sv :: rest0 =>
+    match parseForce rest0 with
+    | some (force, dt :: _n :: ptoks) =>
+      match order.toNat? with
+      | some order =>
+        match schemeOfOrder order with
+        | some sch =>
+          let parts := parsePartsI ptoks
+          let ms := (parts.map Prod.fst).toArray
+          let cfg : Cfg Float := ⟨fl sp, fl sv, gravityBasic force ms⟩
+          match step cfg sch (fl dt) (parts.map Prod.snd) with
+          | none => "err"
+          | some st => " ".intercalate ((st.flatMap (fun p => [p.x, p.y, p.z, p.vx, p.vy, p.vz])).map hxI)
+        | none => "bad-order"
+      | none => "bad-op"
+    | _ => "bad-op"
   | _ => "bad-op"
 
 /-! ### leapfrog -/
-open RV.Reversal in
 def recL (s : List (LfP Float)) : String :=
   hxs (s.flatMap (fun p => [p.x.x, p.x.y, p.x.z, p.v.x, p.v.y, p.v.z]))
 
-open RV.Reversal in
-def lfSeg (acc : List (V3 Float) → List (V3 Float)) (dt : Float) (every : Nat) :
+def lfSeg (stepf : List (LfP Float) → Option (List (LfP Float))) (every : Nat) :
     Nat → Nat → List (LfP Float) → List String → (Option (List (LfP Float))) × List String
   | 0, _, st, out => (some st, out)
   | n+1, k, st, out =>
-    match lfStep acc dt st with
+    match stepf st with
     | none => (none, "err" :: out)
     | some st' =>
       let k' := k + 1
       let emit := n == 0 || (every != 0 && k' % every == 0)
-      lfSeg acc dt every n k' st' (if emit then recL st' :: out else out)
+      lfSeg stepf every n k' st' (if emit then recL st' :: out else out)
 
-open RV.Reversal in
-def lfSegs (acc : List (V3 Float) → List (V3 Float)) (every : Nat) :
+def lfSegs (stepOf : Float → List (LfP Float) → Option (List (LfP Float))) (every : Nat) :
     List (Float × Nat) → List (LfP Float) → List String → List String
   | [], _, out => out
   | (dt, n) :: r, st, out =>
-    match lfSeg acc dt every n 0 st out with
-    | (some st', out') => lfSegs acc every r st' out'
+    match lfSeg (stepOf dt) every n 0 st out with
+    | (some st', out') => lfSegs stepOf every r st' out'
     | (none, out') => out'
 
-open RV.Reversal in
 def leapfrogLine (toks : List String) : String :=
-  match toks with
-  | g :: soft :: every :: nseg :: rest =>
+  match parseForce toks with
+  | some (force, every :: nseg :: rest) =>
     match every.toNat?, nseg.toNat? with
     | some every, some nseg =>
       match parseSegs nseg rest with
       | some (segs, _n :: ptoks) =>
         let parts := parseParts ptoks
         let ms := (parts.map Prod.fst).toArray
-        let soft := fl soft
-        let acc := gravityBasic (fl g) (soft*soft) ms
+        let acc := gravityBasic force ms
         let st0 : List (LfP Float) := parts.map (fun (_, d) => ⟨⟨d.x, d.y, d.z⟩, ⟨d.vx, d.vy, d.vz⟩⟩)
-        " | ".intercalate (lfSegs acc every segs st0 [recL st0]).reverse
+        " | ".intercalate (lfSegs (lfStep acc) every segs st0 [recL st0]).reverse
       | _ => "bad-op"
     | _, _ => "bad-op"
+  | _ => "bad-op"
+
+/-- `sei <OMEGA> <OMEGAZ> <G> <softening> <every> <nseg> (<dt> <n>)*nseg <N> (m x y z vx vy vz)*N`:
+    integrator_sei.c with `sin`, `tan` from libm; the constants are recomputed at the start of every
+    segment (`lastdt != dt`) -/
+def seiLine (toks : List String) : String :=
+  match toks with
+  | om :: omz :: rest0 =>
+    match parseForce rest0 with
+    | some (force, every :: nseg :: rest) =>
+      match every.toNat?, nseg.toNat? with
+      | some every, some nseg =>
+        match parseSegs nseg rest with
+        | some (segs, _n :: ptoks) =>
+          let parts := parseParts ptoks
+          let ms := (parts.map Prod.fst).toArray
+          let acc := gravityBasic force ms
+          let st0 : List (LfP Float) := parts.map (fun (_, d) => ⟨⟨d.x, d.y, d.z⟩, ⟨d.vx, d.vy, d.vz⟩⟩)
+          let stepOf (dt : Float) := seiStep acc dt (seiInit Float.sin Float.tan (fl om) (fl omz) dt)
+          " | ".intercalate (lfSegs stepOf every segs st0 [recL st0]).reverse
+        | _ => "bad-op"
+      | _, _ => "bad-op"
+    | _ => "bad-op"
   | _ => "bad-op"
 
 /-- `trunc <a>`: the cast alone (for the oddness / range exercise) -/
@@ -222,6 +295,7 @@ def dispatch (toks : List String) : String :=
   | "janus" :: r => janusLine r
   | "janus1" :: r => janus1Line r
   | "leapfrog" :: r => leapfrogLine r
+  | "sei" :: r => seiLine r
   | "trunc" :: r => truncLine r
   | "laws" :: r => lawsLine r
   | _ => "bad-op"
